@@ -36,7 +36,7 @@ def pname(pat):
 
 # ---------------------------------------------------------------------------------------------- reference automata
 class CppWriterRef:
-    """state: k = index of the next step. Calls: W i (non-stream write), WS i (stream item), WB i (stream batch), E i, C."""
+    """state: k = index of the next step. Calls: W i (non-stream write), WS i (stream item), WB i (stream batch), WZ i (empty batch), E i, C."""
 
     def __init__(self, pat):
         self.pat, self.k = pat, 0
@@ -227,6 +227,7 @@ def cpp_driver_source(pkg, ns):
             if st[0] == "stream":
                 out.append("    else if (op == 'S' && i == %d) w.Write%s(int32_t(1));" % (i, cn))
                 out.append("    else if (op == 'B' && i == %d) w.Write%s(std::vector<int32_t>{1, 2});" % (i, cn))
+                out.append("    else if (op == 'Z' && i == %d) w.Write%s(std::vector<int32_t>{});" % (i, cn))
                 out.append("    else if (op == 'E' && i == %d) w.End%s();" % (i, cn))
             else:
                 out.append("    else if (op == 'W' && i == %d) w.Write%s(int32_t(1));" % (i, cn))
@@ -258,7 +259,7 @@ def cpp_driver_source(pkg, ns):
     return "\n".join(out)
 
 
-CPP_CALL = {"W": "W_%d", "WS": "S_%d", "WB": "B_%d", "E": "E_%d", "C": "C", "R": "R_%d", "RS": "S_%d"}
+CPP_CALL = {"W": "W_%d", "WS": "S_%d", "WB": "B_%d", "WZ": "Z_%d", "E": "E_%d", "C": "C", "R": "R_%d", "RS": "S_%d"}
 
 
 def enc_call_cpp(call):
@@ -366,7 +367,7 @@ def alphabet(lang, kind, pat):
     for i, c in enumerate(pat):
         if lang == "cpp":
             if kind == "W":
-                calls += [("W", i)] if c == "N" else [("WS", i), ("WB", i), ("E", i)]
+                calls += [("W", i)] if c == "N" else [("WS", i), ("WB", i), ("WZ", i), ("E", i)]
             else:
                 calls += [("R", i)] if c == "N" else [("RS", i), ("RB", i, 1), ("RB", i, 2)]
         else:
